@@ -1,30 +1,32 @@
 (* C11 — property theorems.  Statements only: each is closed by [exact] of a lemma proved elsewhere.
-   [run event_table reset_prog session_expiry_factor cap tr] is the model of core/sessions.py (C11/Model.v) instantiated with
-   the event table, the statements of Session.reset_and_wait and SESSION_EXPIRY_FACTOR regenerated from the source
-   (Gen/C11Gen.v); cap is settings.core.event_queue_size; tr is any list of Trigger / Listen / Tick events. *)
+   [grun event_table reset_prog session_expiry_factor cap tr] is the model of core/sessions.py and of the _enabled flag of
+   core/events/handlers.py (C11/Model.v) instantiated with the event table, the statements of Session.reset_and_wait and
+   SESSION_EXPIRY_FACTOR regenerated from the source (Gen/C11Gen.v); cap is settings.core.event_queue_size; tr is any list of
+   Trigger / Listen / Tick / Disable / Enable events.  [gspec_delivery] (C11/Spec.v) is the specified delivery of the history
+   in which the events triggered while event handling was disabled are dropped for everyone. *)
 From QT Require Import C11.Model C11.Spec C11.PromptThm C11.GenOk C11.GenThm Gen.C11Gen.
 From Coq Require Import Sorted.
 Open Scope Z_scope.
 
 (* no answer to a listen call contains an event whose REQUIRED_ACCESS exceeds the level of that call *)
 Theorem C11_level_safety : forall cap tr,
-  forall o e, In o (snd (run event_table reset_prog session_expiry_factor cap tr)) -> In e (o_evs o) ->
+  forall o e, In o (snd (grun event_table reset_prog session_expiry_factor cap tr)) -> In e (o_evs o) ->
     exists level, rid_level tr (o_rid o) = Some level /\ req_of event_table e <= level.
-Proof. exact level_safety_gen. Qed.
+Proof. exact glevel_safety_gen. Qed.
 Print Assumptions C11_level_safety.
 
 (* per session id, the answers (which call, at which step, which events in which order) are exactly the specified ones:
    pending permitted events, minus superseded updates, minus the oldest beyond the queue size, in trigger order *)
 Theorem C11_exactly_once_in_order : forall cap sid tr, (1 <= cap)%nat ->
-  outputs_of tr sid (snd (run event_table reset_prog session_expiry_factor cap tr)) = spec_delivery event_table cap sid tr.
-Proof. exact exactly_once_gen. Qed.
+  outputs_of tr sid (snd (grun event_table reset_prog session_expiry_factor cap tr)) = gspec_delivery event_table cap sid tr.
+Proof. exact gexactly_once_gen. Qed.
 Print Assumptions C11_exactly_once_in_order.
 
 (* over all answers of a session, the delivered events are strictly increasing in trigger position: no event twice, trigger order *)
 Theorem C11_trigger_order : forall cap sid tr, (1 <= cap)%nat ->
   StronglySorted lt (map e_id (List.concat (map o_evs
-    (outputs_of tr sid (snd (run event_table reset_prog session_expiry_factor cap tr)))))).
-Proof. exact trigger_order_gen. Qed.
+    (outputs_of tr sid (snd (grun event_table reset_prog session_expiry_factor cap tr)))))).
+Proof. exact gtrigger_order_gen. Qed.
 Print Assumptions C11_trigger_order.
 
 (* the code's is_duplicate relation is the supersession rule of the specification; the default queue size is admissible *)
@@ -38,29 +40,31 @@ Proof. exact default_cap_ok. Qed.
 Print Assumptions C11_default_queue_size.
 
 (* right after a Tick no call is left waiting with a queued event or an expired timeout *)
-Theorem C11_prompt : forall cap tr now st o,
-  run event_table reset_prog session_expiry_factor cap (tr ++ [Tick now]) = (st, o) ->
-  Forall (fun x => forall r, s_future (snd x) = Some r ->
-                     s_queue (snd x) = [] /\ now - s_accessed (snd x) <= s_timeout (snd x)) st.
-Proof. exact prompt_tick_gen. Qed.
+Theorem C11_prompt : forall cap tr now x o,
+  grun event_table reset_prog session_expiry_factor cap (tr ++ [Tick now]) = (x, o) ->
+  Forall (fun y => forall r, s_future (snd y) = Some r ->
+                     s_queue (snd y) = [] /\ now - s_accessed (snd y) <= s_timeout (snd y)) (snd x).
+Proof. exact gprompt_tick_gen. Qed.
 Print Assumptions C11_prompt.
 
 (* right after a Listen nothing is left queued: what was deliverable has been answered at once *)
-Theorem C11_prompt_listen : forall cap tr sid level timeout now st o,
-  run event_table reset_prog session_expiry_factor cap (tr ++ [Listen sid level timeout now]) = (st, o) ->
-  exists s, lookup sid st = Some s /\ s_queue s = [] /\ s_level s = level.
-Proof. exact prompt_listen_gen. Qed.
+Theorem C11_prompt_listen : forall cap tr sid level timeout now x o,
+  grun event_table reset_prog session_expiry_factor cap (tr ++ [Listen sid level timeout now]) = (x, o) ->
+  exists s, lookup sid (snd x) = Some s /\ s_queue s = [] /\ s_level s = level.
+Proof. exact gprompt_listen_gen. Qed.
 Print Assumptions C11_prompt_listen.
 
 (* non-vacuity: queue size 2; an admin (30) and a view-only (10) session; port-update p0 twice (superseded), device-update
    (admin only), value-change, port-add: the admin gets the newest two, the viewer the newest two it may see; the viewer's
-   id then used by an admin, a device-update queued for it, and a view-only call on the same id does not receive it *)
+   id then used by an admin, a device-update queued for it, and a view-only call on the same id does not receive it;
+   a value-change triggered while event handling is disabled reaches nobody, the one after Enable is delivered *)
 Example C11_nonvacuous :
-  snd (run event_table reset_prog session_expiry_factor 2
+  snd (grun event_table reset_prog session_expiry_factor 2
          [Listen 0 30 5 0; Listen 1 10 5 0; Tick 1; Trigger 2 0; Tick 1;
           Trigger 2 0; Trigger 4 0; Trigger 3 0; Trigger 0 1; Listen 0 30 5 2; Listen 1 10 5 2;
-          Listen 1 30 5 3; Tick 9; Trigger 4 0; Listen 1 10 5 9; Trigger 3 1; Tick 10])
+          Listen 1 30 5 3; Tick 9; Trigger 4 0; Listen 1 10 5 9; Trigger 3 1; Tick 10;
+          Listen 1 10 5 10; Disable; Trigger 3 0; Enable; Trigger 3 2; Tick 10])
   = [mk_out 4 0 [mk_ev 3 2 0]; mk_out 4 1 [mk_ev 3 2 0];
      mk_out 9 9 [mk_ev 7 3 0; mk_ev 8 0 1]; mk_out 10 10 [mk_ev 7 3 0; mk_ev 8 0 1];
-     mk_out 12 11 []; mk_out 16 14 [mk_ev 15 3 1]].
+     mk_out 12 11 []; mk_out 16 14 [mk_ev 15 3 1]; mk_out 22 17 [mk_ev 21 3 2]].
 Proof. vm_compute. reflexivity. Qed.
